@@ -22,6 +22,7 @@ MODULES = {
     "iroh_relay__handshake": ("iroh-relay", "protos::handshake::verif_kani"),
     "iroh_relay__server": ("iroh-relay", "server::verif_kani"),
     "iroh_dns__pkarr": ("iroh-dns", "pkarr::verif_kani"),
+    "iroh_dns__attrs": ("iroh-dns", "attrs::verif_kani"),
     "iroh__mapped_addrs": ("iroh", "socket::mapped_addrs::verif_kani"),
     "iroh__ip": ("iroh", "socket::transports::ip::verif_kani"),
     "iroh__hooks": ("iroh", "endpoint::hooks::verif_kani"),
@@ -164,8 +165,6 @@ PROPS["C32"] = {
     "harnesses": [
         H(_P, "c32_from_bytes_authentic_p4_parses", "from_bytes Ok iff key valid & signature by the embedded key over (prefix||payload) verifies & payload parses; bytes preserved; accessors agree (payload oracle says yes)", "108-byte packets, all bytes symbolic", timeout=900, stub_env=True, stubs=["decompress", "verify", "Packet::parse", "format"]),
         H(_P, "c32_from_bytes_authentic_p4_parse_fails", "from_bytes Ok iff key valid & signature by the embedded key over (prefix||payload) verifies & payload parses; bytes preserved; accessors agree (payload oracle says no => always rejected)", "108-byte packets, all bytes symbolic", timeout=900, stub_env=True, stubs=["decompress", "verify", "Packet::parse", "format"]),
-        H(_P, "c32_from_bytes_authentic_p0_parses", "same with empty payload (payload oracle says yes)", "104-byte packets", tier="thorough", timeout=1800, stub_env=True, stubs=["decompress", "verify", "Packet::parse", "format"]),
-        H(_P, "c32_from_bytes_authentic_p0_parse_fails", "same with empty payload (payload oracle says no => always rejected)", "104-byte packets", tier="thorough", timeout=1800, stub_env=True, stubs=["decompress", "verify", "Packet::parse", "format"]),
         H(_P, "c32_from_relay_payload_uses_given_key_parses", "from_relay_payload(K,x) verifies under K and embeds K; to_relay_payload inverts (payload oracle says yes)", "74-byte payloads", timeout=900, stub_env=True, stubs=["decompress", "verify", "Packet::parse", "format"]),
         H(_P, "c32_from_relay_payload_uses_given_key_parse_fails", "from_relay_payload(K,x) verifies under K and embeds K; to_relay_payload inverts (payload oracle says no => always rejected)", "74-byte payloads", timeout=900, stub_env=True, stubs=["decompress", "verify", "Packet::parse", "format"]),
         H(_P, "c32_size_limits", "too short / too long inputs rejected before any oracle is consulted", "lengths 0,1,96,103,1105"),
@@ -371,5 +370,20 @@ PROPS["C01"] = {
         H(_V, "c01_handshake_signature_is_checked_with_the_presented_key", "verify_signature Ok iff 32-byte valid key, 64-byte signature and the oracle accepts exactly (key, message, signature)", "key 31..=33 B, signature 63..=65 B, all symbolic", timeout=900, stub_env=True, stubs=["decompress", "verify"]),
         H(_V, "c01_client_cert_no_intermediates", "client certificates accepted iff no intermediates; raw public keys required", "every 44-byte certificate", timeout=900),
         W(_V, "c01_witness", timeout=900),
+    ],
+}
+
+_AT = "iroh_dns__attrs"
+PROPS["C31"] = {
+    "functions": ["iroh_dns::attrs::TxtAttrs::<IrohAttr>::{from_strings,attrs}", "IrohAttr::from_str (strum)", "str::split_once, BTreeMap<IrohAttr, Vec<String>>::entry (real)"],
+    "bounds": "one TXT string `user-data=<v>` with every 4-byte printable-ASCII value v (including '=' anywhere); fixed malformed / other-key strings",
+    "out": "MOST of the property: to_txt_strings / endpoint_info_to_attrs / endpoint_info_from_attrs / UserData and address Display+FromStr (format!, Display: out of CBMC's reach), relay URLs (Url), the signed-packet and DNS containers (simple-dns), "
+           "several records at once, values longer than 4 bytes",
+    "stubs": [KEY_ALLVALID, BT],
+    "assumptions": [],
+    "harnesses": [
+        H(_AT, "c31_txt_value_is_everything_after_first_equals", "from_strings keeps exactly the value after the first '=' (values containing '=' are not truncated)", "all 4-byte printable ASCII values", timeout=1800),
+        H(_AT, "c31_txt_malformed_and_other_keys", "no '=' or unknown key => error; addr= values with '=' kept", "fixed strings", timeout=900),
+        W(_AT, "c31_witness", timeout=900),
     ],
 }
